@@ -5,8 +5,9 @@ for l in open('/verif/properties.jsonl'):
     p = json.loads(l)
     if p['id'] == pid:
         break
-wt = '/tmp/seed_{}/wt'.format(pid.lower())
-out = '/tmp/seed_{}/out'.format(pid.lower())
+prefix = sys.argv[3] if len(sys.argv) > 3 else 'seed'
+wt = '/tmp/{}_{}/wt'.format(prefix, pid.lower())
+out = '/tmp/{}_{}/out'.format(prefix, pid.lower())
 print(T.replace('{WT}', wt).replace('{OUT}', out).replace('{TITLE}', p['title'])
       .replace('{STATEMENT}', p['statement']).replace('{QUANT}', p['quantifier']['text'])
       .replace('{FILES}', ', '.join(p['anchors']['files'])).replace('{N}', n).replace('{PID}', pid))
